@@ -161,6 +161,11 @@ def cap_certificate(idx, loop, cap_names=("max_iters", "max_iter")):
     cond = loop.cond
     if cond is None:
         return {"ok": None, "why": "cond function not resolved"}
+    if getattr(loop, "winfo_call", None) is not None:
+        # the cap the monitored runner is told about (third argument of while_loop_winfo) is the cap whatever it is called
+        b_ = df.bind_call(loop.winfo_call, ["errorfn", "tol", "max_iters"])
+        if isinstance(b_.get("max_iters"), ast.Name):
+            cap_names = tuple(cap_names) + (b_["max_iters"].id, )
     params = fn_params(cond)
     if not params:
         return {"ok": None, "why": "cond has no parameter"}
